@@ -259,6 +259,9 @@ def run(ctx):
     # ---------------------------------------------------------------- C03.7 the eye measured by the OOK receiver accepts any slot count
     from .c17 import rule_even_slots
     rule_even_slots(ctx, "C03.7")
+    # the dispersive element of the link is the all-pass of C07, whichever way it is called (with or without retH)
+    from .c07 import rule_dm
+    rule_dm(ctx, "C03.9", "C03.9")
     # every stage of the link reads the sampling grid in force when it is CALLED (a default or cache bound earlier describes another grid)
     check_late_binding(ctx, "C03.5", ["ook.DSP", "ppm.DSP", "ook.BER_analizer", "ppm.BER_analizer", "devices.DAC", "devices.MZM", "devices.PD", "devices.SAMPLER", "devices.LPF",
                                       "devices.GET_EYE", "devices.DM", "ppm.PPM_ENCODER", "ppm.PPM_DECODER", "ppm.HDD", "ppm.SDD", "ppm.THRESHOLD_EST", "ook.THRESHOLD_EST"])
